@@ -5,8 +5,9 @@ package main
 // (real text/template/parse run natively over the concrete text; adds or
 // replaces the definitions in the receiver's set), Lookup, Name,
 // DefinedTemplates, Templates, Execute/ExecuteTemplate for bodies without
-// actions. The libraries' own escaping/execution semantics are outside the
-// model.
+// actions. html/template's "escaped" state is modelled (after a template of a
+// set has executed, Clone and Parse on that set are refused); the libraries'
+// escaping/execution semantics proper are outside the model.
 
 import (
 	"fmt"
@@ -18,6 +19,9 @@ import (
 
 type tmplSet struct {
 	defs map[string]string
+	// executed (html/template only): once a template of the set has executed
+	// the set is escaped: Clone and Parse are refused from then on
+	executed bool
 }
 
 type tmplObj struct {
@@ -77,6 +81,9 @@ func init() {
 			if o == nil {
 				fr.rtPanic("invalid memory address or nil pointer dereference")
 			}
+			if o.set.executed {
+				return tuple{(*value)(nil), fr.newError(fmt.Sprintf("html/template: cannot Clone %q after it has executed", o.name))}
+			}
 			ns := &tmplSet{defs: map[string]string{}}
 			for k, v := range o.set.defs {
 				ns.defs[k] = v
@@ -99,6 +106,9 @@ func init() {
 			text, ok := a[1].(string)
 			if !ok {
 				panic(unsupported("Template.Parse with symbolic text"))
+			}
+			if o.set.executed {
+				return tuple{(*value)(nil), fr.newError(fmt.Sprintf("html/template: cannot Parse after Execute"))}
 			}
 			tr := parse.New(o.name)
 			tr.Mode = parse.SkipFuncCheck
@@ -152,6 +162,9 @@ func init() {
 			}
 			if strings.Contains(body, "{{") {
 				panic(unsupported("executing a template body with actions (outside the definition-table model)"))
+			}
+			if pkg == "html/template" {
+				o.set.executed = true
 			}
 			wi := w.(iface)
 			// call w.Write(body)
